@@ -143,7 +143,7 @@ def runSteps : MaskOpt → List String → List String → String
 
 def jpStr : JPath → String
   | .root => "$" | .any => "*" | .int n => s!"i{n}"
-  | .str s => if s = [42] then "*" else "s" ++ VL.hexEncode s   -- the text cannot tell the key "*" from the wildcard
+  | .str s => if s = [42] then "*" else "s" ++ VL.hexEncode (sanitizeUtf8 (s.length + 1) s)   -- the text cannot tell the key "*" from the wildcard; keys are compared after UTF-8 sanitising (JSON cannot carry other bytes)
 
 mutual
 def joutStr : JOut → String
@@ -157,7 +157,7 @@ end
 def optInt : Option Int → String
   | none => "x" | some n => toString n
 def optHex : Option Bytes → String
-  | none => "x" | some b => VL.hexEncode b
+  | none => "x" | some b => VL.hexEncode (sanitizeUtf8 (b.length + 1) b)
 
 mutual
 def jinStr : JIn → String
